@@ -211,6 +211,28 @@ class MapS(Shape):
         return f"Map({self.key!r}->{self.val!r})"
 
 
+class DictS(Shape):
+    """dict with symbolic keys and observable insertion order: presence/value arrays as in MapS
+    plus the sequence of keys in insertion order (distinct; presence <=> occurs in it)."""
+
+    def __init__(self, key, val):
+        self.key, self.val = key, val
+        self.map = MapS(key, val)
+        self.keys = SeqS(key)
+
+    def sorts(self):
+        return self.map.sorts() + self.keys.sorts()
+
+    def __eq__(self, o):
+        return isinstance(o, DictS) and self.key == o.key and self.val == o.val
+
+    def __hash__(self):
+        return hash(("dict", self.key, self.val))
+
+    def __repr__(self):
+        return f"Dict({self.key!r}->{self.val!r})"
+
+
 class ConcS(Shape):
     """A concrete python object (class, function, module, compiled pattern, closure ...)."""
 
@@ -337,6 +359,8 @@ def leaves(v: Val):
         return [v.d[0]] + [l for a in v.d[1] for l in leaves(a)]
     if isinstance(s, MapS):
         return [v.d[0]] + list(v.d[1])
+    if isinstance(s, DictS):
+        return leaves(v.d[0]) + leaves(v.d[1])
     raise TypeError(s)
 
 
@@ -373,6 +397,10 @@ def _from(s, it) -> Val:
         pres = next(it)
         n = len(s.val.sorts())
         return Val(s, (pres, [next(it) for _ in range(n)]))
+    if isinstance(s, DictS):
+        m = _from(s.map, it)
+        k = _from(s.keys, it)
+        return Val(s, (m, k))
     raise TypeError(s)
 
 
@@ -428,6 +456,8 @@ def wf(v: Val):
                       *[z3.Implies(tag == i, wf(a)) for i, a in enumerate(v.d[1])])
     if isinstance(s, MapS):
         return z3.BoolVal(True)
+    if isinstance(s, DictS):
+        return v.d[1].d[1] >= 0
     raise TypeError(s)
 
 
@@ -495,6 +525,10 @@ def coerce(v: Val, shape: Shape) -> Val:
         from .objects import PyMap
         if isinstance(v.d, PyMap) and not v.d.items and v.d.default is None:
             return map_empty(shape)
+    if isinstance(shape, DictS) and isinstance(vs, ConcS):
+        from .objects import PyMap
+        if isinstance(v.d, PyMap) and not v.d.items and v.d.default is None:
+            return Val(shape, (map_empty(shape.map), vseq_empty(shape.key)))
     if vs == shape:
         return v
     raise ShapeError(f"cannot coerce {vs} to {shape}")
